@@ -11,6 +11,7 @@ NOT decided: clone() == original (deep equality is value level), equality ignori
 ids, independence of third party objects stored as attribute values.
 """
 import ast
+import re
 
 from .. import analysis
 from ..astutil import calls_in, call_name, where, kw
@@ -277,6 +278,15 @@ def run(prog, rep):
         rep.check(is_clone or is_prev, "LEAF-1", "export_leaf appends %s" % t[:40], "a clone",
                   "export_leaf appends `%s`, which is not a clone: the export shares objects with the document" % t[:60], where(e.func, e.raw),
                   witness="editing the exported tree edits the document")
+    # the Properties of every Section on the chain are copied: the copying may depend only on whether the node has Properties at all
+    for e in apps:
+        arg = e.call.args[-1] if e.call.args else None
+        if isinstance(arg, ast.Call) and isinstance(arg.func, ast.Attribute) and arg.func.attr == "clone" and ".properties" in unparse(arg) + "":
+            extra = [t for t, pol in e.guards() if not re.match(r"^hasattr\(.+, 'properties'\)$", t)
+                     and not (re.match(r"^\w+ is None$", t) and pol is False)]      # the chain loop runs while the node is not None
+            rep.check(not extra, "LEAF-1", "export_leaf copies the Properties of every chain Section", "guarded by hasattr(<node>, 'properties') only",
+                      "the Properties of a chain node are copied only under %s: some Sections on the chain lose their Properties" % extra,
+                      where(e.func, e.raw), witness="export_leaf() from a tree whose root is a Section without Document: the root's Properties are missing")
     pel = prog.func("property.BaseProperty.export_leaf")
     rep.check(any(unparse(c.func).endswith("parent.export_leaf") for c in calls_in(pel.node)), "LEAF-1",
               "Property.export_leaf delegates to the parent Section", "ok", "Property.export_leaf does not delegate to parent.export_leaf()", pel.where)
